@@ -44,7 +44,7 @@ impl BlindSignatureContext {
         if buffer.len() < size {
             return None;
         }
-        if buffer.len() - 48 % 32 != 0 {
+        if (buffer.len() - 48) % 32 != 0 {
             return None;
         }
 
